@@ -196,6 +196,32 @@ def conc_bytes(t):
     return None
 
 
+_HASQ = {}
+
+
+def has_quantifier(f):
+    """does the formula contain a quantifier (cached by term id; the terms are kept alive by the path conditions)"""
+    key = f.get_id()
+    hit = _HASQ.get(key)
+    if hit is not None and hit[1] is f:
+        return hit[0]
+    r = False
+    seen = set()
+    stack = [f]
+    while stack:
+        t = stack.pop()
+        i = t.get_id()
+        if i in seen:
+            continue
+        seen.add(i)
+        if z3.is_quantifier(t):
+            r = True
+            break
+        stack.extend(t.children())
+    _HASQ[key] = (r, f)
+    return r
+
+
 def zmin(a, b):
     return z3.If(a <= b, a, b)
 
@@ -356,12 +382,24 @@ class Path:
                 return False
             if r == z3.sat and not self.explorer.precise_feasibility:
                 return True
+        t0 = _t.time()
+        quantified = [p for p in self.pc if has_quantifier(p)]
+        if quantified:
+            # quantified hypotheses make satisfiable queries slow (no model is found, the time limit is hit): first ask
+            # without them (a weakening: `unsat` is still conclusive), then give the full query a short budget only
+            s = z3.Solver()
+            s.set('timeout', self.explorer.feas_timeout_ms)
+            for p in self.pc:
+                if not has_quantifier(p):
+                    s.add(p)
+            s.add(c)
+            if s.check() == z3.unsat:
+                return False
         s = z3.Solver()
-        s.set('timeout', self.explorer.feas_timeout_ms)
+        s.set('timeout', self.explorer.feas_timeout_ms if not quantified else 300)
         for p in self.pc:
             s.add(p)
         s.add(c)
-        t0 = _t.time()
         r = s.check()
         dt = _t.time() - t0
         if DEBUG and dt > 0.5:
@@ -392,12 +430,24 @@ class Path:
         if ca is not None and self._abs_query(z3.Not(ca)) == z3.unsat:
             r = True
         else:
-            s = z3.Solver()
-            s.set('timeout', 1000)
-            for p in self.pc:
-                s.add(p)
-            s.add(z3.Not(c))
-            r = s.check() == z3.unsat
+            quantified = any(has_quantifier(p) for p in self.pc)
+            if quantified:
+                # as in feasible(): without the quantified hypotheses first (entailment from fewer hypotheses is still
+                # entailment), then the full query with a short budget (a non-entailed goal would run into the limit)
+                s = z3.Solver()
+                s.set('timeout', 1000)
+                for p in self.pc:
+                    if not has_quantifier(p):
+                        s.add(p)
+                s.add(z3.Not(c))
+                r = s.check() == z3.unsat
+            if not r:
+                s = z3.Solver()
+                s.set('timeout', 1000 if not quantified else 250)
+                for p in self.pc:
+                    s.add(p)
+                s.add(z3.Not(c))
+                r = s.check() == z3.unsat
         cache[key] = r
         return r
 
@@ -507,6 +557,8 @@ class Path:
         if ref.old is not None:
             if isinstance(v, Ref) and v.old is None:
                 return Ref(v.oid, ref.old)
+            if isinstance(v, ElemRef) and v.mref.old is None:
+                return ElemRef(Ref(v.mref.oid, ref.old), v.key)
             if isinstance(v, tuple):
                 return tuple(self.wrap(x, ref) for x in v)
         return v
